@@ -30,7 +30,7 @@ pub enum Scen {
 /// every way of obtaining a stream ...
 pub const OBTAINS: &[&str] = &["accept", "try_accept", "accept_with_timeout", "connect", "try_connect", "connect_with_timeout", "connect_blocking"];
 /// ... followed by every way of using it (peer connected but silent)
-pub const USES: &[&str] = &["read_with_timeout", "read", "write"];
+pub const USES: &[&str] = &["read_with_timeout", "read", "write", "drop"];
 
 pub const SCENS: &[(Scen, &str)] = &[
     (Scen::Write, "write"),
@@ -78,6 +78,8 @@ pub struct Case {
     pub use_: usize,
     /// write scenarios: inbound bytes queued on the writing socket that the application never reads (0 or 4)
     pub rx: usize,
+    /// chain/drop: a fork + exec of a long-lived child happens between obtaining the stream and dropping it
+    pub child: bool,
 }
 
 impl Case {
@@ -88,6 +90,7 @@ impl Case {
             "len": self.len, "cap": self.cap, "mode": self.mode,
             "timeout_ns": self.timeout,
             "rx_pending": self.rx,
+            "exec_child": self.child,
             "peer": PEERS.iter().find(|s| s.0 == self.peer).map(|s| s.1),
             "obtain": if self.scen == Scen::Chain { OBTAINS.get(self.obtain) } else { None },
             "use": if self.scen == Scen::Chain { USES.get(self.use_) } else { None },
@@ -105,6 +108,7 @@ impl Case {
             obtain: OBTAINS.iter().position(|s| Some(*s) == v["obtain"].as_str()).unwrap_or(0),
             use_: USES.iter().position(|s| Some(*s) == v["use"].as_str()).unwrap_or(0),
             rx: v["rx_pending"].as_u64().unwrap_or(0) as usize,
+            child: v["exec_child"].as_bool().unwrap_or(false),
         })
     }
     /// `<Type>::<op>` of the operation under test
@@ -769,6 +773,47 @@ pub unsafe fn app(case: &Case, wp: *mut World) -> AppOut {
                 }
             };
             stream_mode_check(&made_by, &s, wp, &mut out);
+            if case.use_ == 3 {
+                // ---- close order: the application drops the stream, the peer's blocking read must then complete with
+                //      end-of-stream ("blocking read completes when the peer acts", every order of close between the two
+                //      ends) — also when the process fork+exec'd a long-lived child in between
+                let fd = s.fd();
+                let ci = match (*wp).sock_of(fd) {
+                    Some(Sock::Stream(ci)) => *ci,
+                    _ => {
+                        out.machinery = Some("chain/drop: no model connection behind the stream".into());
+                        return out;
+                    }
+                };
+                let cloexec = (*wp).cloexec_of(fd).unwrap_or(true);
+                let leaked = if case.child { (*wp).fork_exec() } else { Vec::new() };
+                (*wp).set_op(&op, true);
+                (*wp).set_phase(Phase::Measured);
+                drop(s);
+                (*wp).set_phase(Phase::Epilogue);
+                if !(*wp).peer_sees_eof(ci) {
+                    out.viol.push((
+                        format!("C16:{made_by}:peer-sees-no-eof-after-drop"),
+                        format!(
+                            "{made_by} handed out a stream whose descriptor {fd} has no close-on-exec flag; the process fork+exec'd a child, which inherited it \
+                             (leaked descriptors {leaked:?}); dropping the stream closes only the parent's copy, so the peer's blocking read never sees end-of-stream \
+                             (a blocking read must complete when the other end closes)"
+                        ),
+                    ));
+                    out.result = "no-eof(exec'd child holds the connection)".into();
+                } else {
+                    out.result = if case.child { "eof-after-drop(child holds nothing)".into() } else { "eof-after-drop".into() };
+                }
+                if !cloexec && !case.child {
+                    out.result.push_str("+stream-fd-without-cloexec");
+                }
+                if leaked.iter().any(|&l| l != fd) {
+                    // a listener copy in the child does not change what the statement speaks about
+                    out.result.push_str("+other-fd-leaked(not judged)");
+                }
+                drop(keep);
+                return out;
+            }
             // ---- use it; the peer is connected and silent
             (*wp).peer.connects_left = 0;
             (*wp).peer.to_write.clear();
